@@ -484,9 +484,12 @@ def match_known(prop, dis):
 
 # ------------------------------------------------------------------ evidence / verdict
 
-def write_evidence(prop, evid):
-    os.makedirs(os.path.join(VERIF, "evidence"), exist_ok=True)
-    p = os.path.join(VERIF, "evidence", prop + ".json")
+def write_evidence(prop, evid, scratch=False):
+    """scratch (development runs: --no-proof, VERIF_DEV, VERIF_REPO): keep the committed evidence
+    file untouched and write under build/ instead"""
+    d = os.path.join(BUILD, "dev-evidence") if (scratch or DEV or REPO != "/repo") else os.path.join(VERIF, "evidence")
+    os.makedirs(d, exist_ok=True)
+    p = os.path.join(d, prop + ".json")
     tmp = p + ".tmp"
     json.dump(evid, open(tmp, "w"), indent=1, sort_keys=True)
     os.replace(tmp, p)
